@@ -75,7 +75,13 @@ def cases(seed, tier):
         rng.shuffle(kex)
         prof = {'banner': rng.choice(BANNERS[role]), 'kex': kex,
                 'key': ['ssh-ed25519'], 'enc': enc, 'mac': mac, 'comp': ['none'], 'keys': {'ssh-ed25519': {}}}
-        yield {'cell': cell, 'role': role, 'marker': marker, 'profile': prof, 'opts': rng.choice([['-n'], ['-n'], ['-j'], ['-n', '-b'], ['-n', '-v']]),
+        c2s = None
+        r2 = gen.case_rng(seed, ID, i, 'c2s')
+        if role == 'client' and r2.random() < 0.3:
+            # the client's other direction (client-to-server) differs: the rule is judged on the lists the report shows
+            c2s = {'enc': r2.choice([['aes128-ctr'], ['chacha20-poly1305@openssh.com', 'aes256-cbc'], ['aes128-gcm@openssh.com', '3des-cbc']]),
+                   'mac': r2.choice([['hmac-sha2-256'], ['hmac-sha2-512-etm@openssh.com'], ['umac-128-etm@openssh.com', 'hmac-sha1']])}
+        yield {'cell': cell, 'role': role, 'marker': marker, 'profile': prof, 'c2s': c2s, 'opts': rng.choice([['-n'], ['-n'], ['-j'], ['-n', '-b'], ['-n', '-v']]),
                'nets': [{'rtt_us': 200}, gen.rand_net(rng)] if rng.random() < 0.3 else [{'rtt_us': 200}], 'pseed': rng.getrandbits(32)}
 
 
@@ -93,7 +99,10 @@ def sample(case):
 
 def _plan(case, net):
     if case['role'] == 'client':
-        return gen.client_plan(case['pseed'], list(case['opts']) + ['-c', '-p', '2222', '-t', '4'], case['profile'], port=2222, net=net)
+        prof = case['profile']
+        if case.get('c2s'):
+            prof = dict(prof, enc_s2c=prof['enc'], mac_s2c=prof['mac'], enc=case['c2s']['enc'], mac=case['c2s']['mac'])
+        return gen.client_plan(case['pseed'], list(case['opts']) + ['-c', '-p', '2222', '-t', '4'], prof, port=2222, net=net)
     return gen.server_plan(case['pseed'], list(case['opts']) + ['--skip-rate-test', 'srv.example:2222'], case['profile'], port=2222, net=net)
 
 
